@@ -26,10 +26,21 @@ class C08(CfProp):
     def gen(self, rng, tier, n, shard, nshards):
         cases = []
         while len(cases) < n:
+            if rng.random() < 0.15:
+                # three worlds that share do(x) and differ in an irrelevant intervention, split between outcomes and conditions: copies of one
+                # variable in several worlds are the same variable, so contradicting values are impossible (wherever they are stated)
+                g, ev = GEV.three_world_case(rng)
+                if len(ev) >= 2:
+                    rng.shuffle(ev)
+                    k = rng.randint(1, len(ev) - 1)
+                    cases.append({"g": g, "outcomes": ev[:k], "conditions": ev[k:]})
+                continue
             g = self.rand_case(rng, 4)
             o = GEV.rand_event(rng, g["nodes"], 1, 2)
             used = {v["n"] for v, _ in o}
             rest = [k for k in g["nodes"] if GE.ALPHA[k] not in used]
+            if rng.random() < 0.2:      # conditions may mention the outcome variables in other worlds
+                rest = list(g["nodes"])
             if not rest:
                 continue
             c = GEV.rand_event(rng, rest, 1, 2)
